@@ -1020,7 +1020,9 @@ postfixexpr(struct scope *s, struct expr *r)
 			r = mkbinaryexpr(&tok.loc, TADD, exprconvert(r, &typeulong), mkconstexpr(&typeulong, offset));
 			r->type = mkpointertype(m->type, tq | m->qual);
 			r = mkunaryexpr(TMUL, r);
-			r->lvalue = lvalue;
+			/* a member of array type has decayed to a pointer, which is not an lvalue */
+			if (!r->decayed)
+				r->lvalue = lvalue;
 			if (m->bits.before || m->bits.after) {
 				e = mkexpr(EXPRBITFIELD, r->type, r);
 				e->lvalue = lvalue;
